@@ -3,7 +3,7 @@
     value the implementation read or produced at a trace point must be the value the model computes
     at that step, every label must be enabled, and the final list / decision must agree.  Component
     cases drive the real ItemPool against the pool functions of the model. *)
-From SkimV Require Export Common.Base Model.Pipeline.
+From SkimV Require Export Common.Base Model.Pipeline Model.Draw.
 
 Definition b2n (b : bool) : N := if b then 1%N else 0%N.
 Definition n2n (n : nat) : N := N.of_nat n.
@@ -92,7 +92,10 @@ Inductive case :=
            (segs : list (N * list (label * list N)))   (* run-length encoded steps: (count, block) *)
            (final : option (list N))            (* accepted output: item ids in index order *)
            (dec : N)                             (* 0 none, 1 accept, 2 abort, 3 interactive *)
-| KPool (nres : nat) (ops : list pop) (seen : list (list N)).
+| KPool (nres : nat) (ops : list pop) (seen : list (list N))
+(* the header widget drawn over --header lines and the pool's reserved items: recorded rows (None: refused to draw) *)
+| KHeader (width height tab : nat) (reverse : bool) (fixed reserved : list text) (widths : list (char * nat))
+          (rows : option (list (nat * list (nat * (char * N))))).
 
 Definition table_mp (table : list (list bool)) (qq : N) (x : item) : bool :=
   nth (N.to_nat x) (nth (N.to_nat qq) table []) false.
@@ -115,6 +118,11 @@ Definition check_detail (c : case) : list N :=
       end
   | KPool nres ops seen =>
       if list_eqb (list_eqb N.eqb) seen (pool_run nres ops) then [] else [4%N]
+  | KHeader width height tab reverse fixed reserved widths rows =>
+      let cw (c : char) := match assoc N.eqb c widths with Some w => w | None => 1 end in
+      let ceq (a b : nat * (char * N)) := Nat.eqb (fst a) (fst b) && N.eqb (fst (snd a)) (fst (snd b)) && N.eqb (snd (snd a)) (snd (snd b)) in
+      let req (a b : nat * list (nat * (char * N))) := Nat.eqb (fst a) (fst b) && list_eqb ceq (snd a) (snd b) in
+      if option_eqb (list_eqb req) (header_rows cw width height tab reverse fixed reserved) rows then [] else [5%N]
   end.
 
 Definition check (c : case) : bool := match check_detail c with [] => true | _ => false end.
